@@ -244,6 +244,25 @@ for _p in ('C13', 'C10', 'C01', 'C07'):
 for _p in ('C16', 'C05', 'C06'):
     _add(_p, [('/pwr', '(*ValidatorContext).validate')])
 
+# round 4: more indirect dependencies
+_PIPE = [('/ctxcopy', 'DoBuffer'), ('/multiread', '(*multiread).Do')]
+_add('C01', _PIPE + BOWL_LISTS + BOWL_COMMIT + OVERLAY + OVERLAY_ENTRY + [('/pwr/bowl', '(*overlayBowl).Save'), ('/pwr/bowl', '(*overlayBowl).Resume'), ('/pwr/bowl', '(*overlayBowl).Transpose'), ('/pwr/bowl', 'detectGhosts'), ('/pwr/bowl', '(*overlayBowl).deleteGhosts')])
+_add('C08', _PIPE)
+_add('C11', SIGN)
+_add('C04', [('/pwr', 'CompressWire'), ('/pwr', 'DecompressWire')] + WIRE_ALL + [('/wire', '(*ReadContext).ExpectMagic'), ('/wire', '(*WriteContext).WriteMagic'), ('/wire', '(*WriteContext).Close')])
+_add('C07', PATCHER + BOWL_FRESH)
+_add('C03', OVERLAY)
+
+_CODECS = [('/compressors/gzip', '(*gzipCompressor).Apply'), ('/decompressors/gzip', '(*gzipDecompressor).Apply'), ('/decompressors/brotli', '(*brotliDecompressor).Apply')]
+for _p in ('C13', 'C04', 'C01', 'C03'):
+    _add(_p, _CODECS)
+_add('C18', [('/pwr/bowl', '(*poolBowl).Transpose')])
+_add('C01', [('/pwr/bowl', '(*poolBowl).Transpose')])
+for _p in ('C13', 'C15', 'C01', 'C04'):
+    _add(_p, [('/wire', 'NewWriteContext')])
+_add('C15', [('/pwr/rediff', 'NewContext')])
+_add('C07', [('/pwr/rediff', 'NewContext')])
+
 # properties with a registered check
 CLAIMED = {'C02', 'C03', 'C15', 'C19', 'C18', 'C04', 'C09', 'C17', 'C11', 'C08', 'C01', 'C10', 'C12', 'C07', 'C14', 'C13', 'C05', 'C16', 'C06'}
 # reasons for properties not claimed (kept current)
